@@ -147,6 +147,25 @@ func c11Generate(c *mon.Ctx) {
 		}
 	}
 
+	// the values SSWU and the isogeny INVERT (tv4 resp. x_den), steered onto hard inputs of a divstep inversion
+	var hard []*big.Int
+	for _, h := range gen.HardInversion(p) {
+		// once as the stored limbs, once as the canonical value (an inversion may run on either)
+		hard = append(hard, h, oracle.FromLimbs(oracle.ToMont(h, oracle.P)))
+	}
+
+	for _, t := range hard {
+		if u, ok := c11Steer("tv4", t); ok {
+			s := hx(u)
+			c.Structured(func() any { return &c11Case{Kind: "sswu", U: s, Class: "steered:tv4"} })
+		}
+
+		if x, ok := c11Steer("xden", t); ok {
+			s := hx(x)
+			c.Structured(func() any { return &c11Case{Kind: "iso", X: s, Odd: 1, Class: "steered:xden"} })
+		}
+	}
+
 	for _, t := range gen.HalfZeroTargets(p) {
 		for _, which := range []string{"tv2", "tv1", "u2"} {
 			if u, ok := c11Steer(which, t); ok {
@@ -446,6 +465,27 @@ func c11Steer(which string, t *big.Int) (*big.Int, bool) {
 		}
 
 		return fromTv2(oracle.FNeg(oracle.FMul(tv4, oracle.FInv0(oracle.IsoA))))
+	case "tv4":
+		// tv4 = A * (-tv2) is what step 25 inverts
+		return fromTv2(oracle.FNeg(oracle.FMul(v, oracle.FInv0(oracle.IsoA))))
+	case "xden":
+		// x_den = x'^2 + k21 x' + k20 = v
+		k21, k20 := oracle.K[1][1], oracle.K[1][0]
+		disc := oracle.FSub(oracle.FSqr(k21), oracle.FMul(big.NewInt(4), oracle.FSub(k20, v)))
+
+		rt, ok := oracle.FSqrt(disc)
+		if !ok {
+			return nil, false
+		}
+
+		for _, sgn := range []*big.Int{rt, oracle.FNeg(rt)} {
+			x := oracle.FMul(oracle.FSub(sgn, k21), oracle.FInv0(big.NewInt(2)))
+			if _, on := oracle.FSqrt(gIsoRef(x)); on {
+				return x, true
+			}
+		}
+
+		return nil, false
 	case "x2":
 		x, ok := oracle.FSqrt(v)
 		if !ok {
